@@ -22,8 +22,8 @@ def good_value(rng, p):
     if conv == "dotted":
         if "callback" in name:
             return "harness.wmod.cb"
-        return rng.choice(["harness.wmod.w", "harness.wmod.w", "harness.wmod.w", "harness.wmod.notcoro", "harness.wmod.boom",
-                           "harness.wmod.cur", "harness.wmod.cur"])
+        return rng.choice(["harness.wmod.w", "harness.wmod.w", "harness.wmod.loud", "harness.wmod.notcoro", "harness.wmod.boom",
+                           "harness.wmod.cur", "harness.wmod.cur", "harness.wmod.loud"])
     if conv == "literal":
         if name == "args":
             return rng.choice(["(1,)", "(1,2)", "()", "[5]"])
@@ -34,7 +34,8 @@ def good_value(rng, p):
         if name == "kwargs_iter":
             return rng.choice(["[{'x':1},{'y':2}]", "[{}]", "[]"])
         return rng.choice(["[1,2]", "[1,2,3]", "[]", "(4,5)"])
-    return rng.choice(GROUPS + ["msg", "x1"])
+    # strings are passed through as they are: non-ASCII text and backslashes included
+    return rng.choice(GROUPS + ["msg", "x1", "grüße", "a\\tb", "ж✓"])
 
 
 def bad_value(rng, p):
